@@ -16,6 +16,8 @@ RULE = ("Generated: three state types, n 1..3 (thorough ..4), parameters with sc
         "of sum q log(q/p) of reference Born distributions (dense U), >= 0, 0 against own state in every basis, dict form == "
         "rotate-once form; NLL = -mean log Born probability in each row's own basis; every path returns a plain float. "
         "Non-trivial = non-real target and (complex/density) a basis containing Y, (density) target rank > 1.")
+RULE_EXT = ('Extended as built: deprecated aliases, repeatability and target-unchanged checks, sparse targets with exact zeros (TINY=1e-15 convention), bases given as ndarray, datasets of up to 700 rows, polarised states, an in-place parameter history A -> B -> A, ignored extra keyword arguments.')
+RULE = RULE + " " + RULE_EXT
 ASSUMPTIONS = ["cases where a reference Born probability that is paired with positive target mass is < 1e-12 are excluded and counted "
                "(torch's probs_to_logits clamps probabilities at machine epsilon)",
                "tolerance 1e-8*(1+|value|) for KL/NLL and pure fidelity, 1e-6 for mixed fidelity (square roots of small eigenvalues)"]
